@@ -9,9 +9,11 @@ Local Open Scope list_scope.
 (* ================= where the names change ================= *)
 Lemma huhl_names : forall s p e, names (handle_update_to_hard_links s p e) = names s.
 Proof.
-  intros. unfold handle_update_to_hard_links. destruct (h_hl e =? 0)%N; [reflexivity|].
-  destruct (nfind (kv_put s (h_hl e) e) p) as [ex|]; [|reflexivity].
-  destruct (negb (h_hl ex =? 0)%N && negb (h_hl ex =? h_hl e)%N); [|reflexivity].
+  intros. unfold handle_update_to_hard_links. cbv zeta.
+  set (s1 := if (h_hl e =? 0)%N then s else kv_put s (h_hl e) e).
+  assert (H1 : names s1 = names s) by (unfold s1; destruct (h_hl e =? 0)%N; reflexivity).
+  destruct (nfind s1 p) as [ex|]; [|exact H1].
+  destruct (negb (h_hl ex =? 0)%N && negb (h_hl ex =? h_hl e)%N); [|exact H1].
   now rewrite dhl_names.
 Qed.
 
@@ -162,6 +164,23 @@ Proof.
     intros ex H. destruct (Hb ex H) as [A|[_ A]]; auto.
 Qed.
 
+(* a plain entry at any name (a link id carried by the replaced blob is decremented) *)
+Lemma filer_create_plain_inv' : forall l ev s p e x, InvG l s -> p <> [] -> h_hl e = 0%N ->
+  InvG l (st_of (filer_create ev s p e x)).
+Proof.
+  intros l ev s p e x I Hp He. unfold filer_create. rewrite find_entry_nonroot by assumption.
+  destruct (w_find s p) as [old|] eqn:Ef.
+  - destruct x; [exact I|].
+    destruct (filer_update s p old e) as [s1 r] eqn:Eu.
+    destruct (filer_update_cases _ _ _ _ _ _ Eu) as [[A B]|[A B]]; subst.
+    + destruct r; simpl; exact I.
+    + simpl. apply w_insert_plain_inv'; auto.
+  - pose proof (ensure_parent_inv l ev s p e I) as I1.
+    destruct (ensure_parent ev s p e) as [s1 r]. simpl in I1.
+    destruct (is_err r); unfold st_of; simpl; [exact I1|].
+    apply w_insert_plain_inv'; auto.
+Qed.
+
 (* a write through a name whose blob carries an id: the entry carries the same id and the record's counter *)
 Lemma filer_create_same_link_inv : forall l ev s p ex b e, InvG l s -> p <> [] ->
   nfind s p = Some ex -> h_hl ex <> 0%N -> kv_get s (h_hl ex) = Some b ->
@@ -269,8 +288,7 @@ Lemma delete_entry_cases : forall ev s p rec ign data,
      let cs := if h_dir e then list_children s p else [] in
      let s1 := if h_dir e then w_delete_folder_children s p else s in
      let s2 := w_delete_one s1 p e in
-     st_of (delete_entry ev s p rec ign data) =
-       if data then fold_left delete_hard_link (snd (collect_children cs)) s2 else s2).
+     st_of (delete_entry ev s p rec ign data) = fold_left delete_hard_link (snd (collect_children cs)) s2).
 Proof.
   intros. unfold delete_entry. destruct (find_entry ev s p) as [e|] eqn:Ef.
   - destruct (h_dir e && negb rec && negb match (if h_dir e then list_children s p else []) with [] => true | _ => false end) eqn:Ec.
@@ -279,7 +297,7 @@ Proof.
       assert (Hnil : h_dir e = true -> rec = false -> list_children s p = []).
       { intros Hd Hr. rewrite Hd, Hr in Ec. simpl in Ec. destruct (list_children s p); [reflexivity|discriminate]. }
       destruct (collect_children (if h_dir e then list_children s p else [])) as [dc ids] eqn:Ecc.
-      destruct data; simpl; auto.
+      simpl. auto.
   - left. split; [reflexivity|discriminate].
 Qed.
 
@@ -296,19 +314,17 @@ Proof.
     apply is_child_of_spec in E. destruct E as [n E]. subst. apply is_prefix_app. }
   assert (H2 : nfind (w_delete_one (if h_dir e then w_delete_folder_children s p else s) p e) q = Some e0).
   { rewrite w_delete_one_nfind, Hne. destruct (h_dir e); [rewrite dfc_nfind, Hnc|]; assumption. }
-  destruct data; [rewrite dhl_fold_nfind|]; exact H2.
+  rewrite dhl_fold_nfind. exact H2.
 Qed.
 
 Lemma collect_nil : collect_children [] = ([], []).
 Proof. reflexivity. Qed.
 
-(* with data deletion every removed name's id is decremented; without it only when no child carries one *)
+(* every removed name's id is decremented (since the repair: whether or not the data is deleted) *)
 Lemma delete_entry_inv : forall ev s p rec ign data, Inv s -> p <> [] ->
-  (data = true \/ rec = false \/
-   forall e, find_entry ev s p = Some e -> h_dir e = true -> snd (collect_children (list_children s p)) = []) ->
   Inv (st_of (delete_entry ev s p rec ign data)).
 Proof.
-  intros ev s p rec ign data I Hp Hd.
+  intros ev s p rec ign data I Hp.
   destruct (delete_entry_cases ev s p rec ign data) as [[A _]|[e [Ef [_ [Hnil A]]]]]; rewrite A; [exact I|].
   rewrite find_entry_nonroot in Ef by assumption.
   destruct (w_find_Some _ _ _ Ef) as [ex [Hex Hv]]. subst e.
@@ -325,14 +341,7 @@ Proof.
   assert (Hview : view (if h_dir (view s ex) then w_delete_folder_children s p else s) ex = view s ex).
   { destruct (h_dir (view s ex)); reflexivity. }
   pose proof (w_delete_one_inv _ _ p ex I1 Hex1) as I2. rewrite Hview in I2.
-  destruct data.
-  - unfold Inv. apply dhl_fold_inv. exact I2.
-  - destruct Hd as [Hd|Hd]; [discriminate|].
-    assert (Hids : ids = []).
-    { unfold ids. destruct (h_dir (view s ex)) eqn:Ed; [|reflexivity].
-      destruct Hd as [Hd|Hd]; [now rewrite (Hnil eq_refl Hd)|].
-      apply (Hd (view s ex)); auto. rewrite find_entry_nonroot by assumption. unfold w_find. now rewrite Hex. }
-    rewrite Hids in I2. exact I2.
+  unfold Inv. apply dhl_fold_inv. exact I2.
 Qed.
 
 Lemma grpc_delete_st : forall ev s p rec ign data,
